@@ -27,7 +27,7 @@
 (***************************************************************************)
 EXTENDS Integers, Sequences, FiniteSets, TLC, Json, IOUtils
 
-CONSTANTS Classes, MaxLen, AliasKinds, Mode
+CONSTANTS Classes, MaxLen, AliasKinds, AliasChars, MaxAlias, Mode
 
 VARIABLES case, out, l, viol, drift, taint, hist
 vars == <<case, out, l, viol, drift, taint, hist>>
@@ -104,6 +104,47 @@ GitAlias(k) == CASE k = "simple" -> "status" [] k = "args" -> "log" [] k = "chai
                  [] OTHER -> "unknown"
 
 -----------------------------------------------------------------------------
+(* alias values: git's own tokenizer (alias.c split_cmdline) over abstract characters                      *)
+(*   "a" ordinary   "s" space   "q" single quote   "d" double quote   "k" backslash                        *)
+(* -> [ok, toks]: ok = FALSE when git refuses the value (unclosed quote, value ends with a backslash)       *)
+RECURSIVE GitSplitFrom(_, _, _, _, _)
+\* value, position, quote state ("" / "q" / "d"), tokens finished so far, current token
+GitSplitFrom(v, i, qu, done, cur) ==
+  IF i > Len(v) THEN IF qu # "" THEN [ok |-> FALSE, toks |-> <<>>] ELSE [ok |-> TRUE, toks |-> Append(done, cur)]
+  ELSE LET c == v[i] IN
+       IF qu = "" /\ c = "s"
+       THEN LET j == CHOOSE j \in (i + 1)..(Len(v) + 1) : (j = Len(v) + 1 \/ v[j] # "s") /\ \A m \in (i + 1)..(j - 1) : v[m] = "s"
+            IN GitSplitFrom(v, j, qu, Append(done, cur), <<>>)
+       ELSE IF qu = "" /\ c \in {"q", "d"} THEN GitSplitFrom(v, i + 1, c, done, cur)
+       ELSE IF c = qu THEN GitSplitFrom(v, i + 1, "", done, cur)
+       ELSE IF c = "k" /\ qu # "q"
+            THEN IF i = Len(v) THEN [ok |-> FALSE, toks |-> <<>>]
+                 ELSE GitSplitFrom(v, i + 2, qu, done, Append(cur, v[i + 1]))
+            ELSE GitSplitFrom(v, i + 1, qu, done, Append(cur, c))
+GitSplit(v) == GitSplitFrom(v, 1, "", <<>>, <<>>)
+\* git-ai's tokenizer as built (parse_alias_tokens): like git's, except that blanks at the end do not start
+\* another (empty) token as they do in git, and a trailing backslash is kept as a literal one (pinned by a unit
+\* test of the repository)
+RECURSIVE AiSplitFrom(_, _, _, _, _, _)
+\* value, position, quote state, finished tokens, current token, has the current token started
+AiSplitFrom(v, i, qu, done, cur, st) ==
+  IF i > Len(v) THEN IF qu # "" THEN [ok |-> FALSE, toks |-> <<>>]
+                     ELSE [ok |-> TRUE, toks |-> IF st THEN Append(done, cur) ELSE done]
+  ELSE LET c == v[i] IN
+       IF qu = "" /\ c = "s" THEN (IF st THEN AiSplitFrom(v, i + 1, qu, Append(done, cur), <<>>, FALSE)
+                                         ELSE AiSplitFrom(v, i + 1, qu, done, cur, FALSE))
+       ELSE IF qu = "" /\ c \in {"q", "d"} THEN AiSplitFrom(v, i + 1, c, done, cur, TRUE)
+       ELSE IF c = qu THEN AiSplitFrom(v, i + 1, "", done, cur, st)
+       ELSE IF c = "k" /\ qu # "q"
+            THEN IF i = Len(v) THEN (IF qu # "" THEN [ok |-> FALSE, toks |-> <<>>]
+                                               ELSE [ok |-> TRUE, toks |-> Append(done, Append(cur, "k"))])
+                 ELSE AiSplitFrom(v, i + 2, qu, done, Append(cur, v[i + 1]), TRUE)
+            ELSE AiSplitFrom(v, i + 1, qu, done, Append(cur, c), TRUE)
+AiSplit(v) == AiSplitFrom(v, 1, "", <<>>, <<>>, FALSE)
+\* values worth trying: start with an ordinary character (the config parser strips leading blanks)
+AliasValues == { v \in SeqsUpTo(AliasChars, MaxAlias) : v # <<>> /\ v[1] = "a" }
+
+-----------------------------------------------------------------------------
 (* Properties over an outcome record *)
 \* vector cases: o.v (classes), o.same (passed = typed, token by token), o.cmdIdx (position of the token git-ai
 \*   took for the subcommand, 0 if none or synthesized), o.gitSame (real git behaves identically on typed and passed:
@@ -119,6 +160,17 @@ C18_CommandNotValue(o) ==
   (o.done /\ o.kind = "vec" /\ o.cmdIdx # 0) =>
      LET g == GitScan(o.v) IN o.cmdIdx \notin g.consumed /\ (g.kind = "cmd" => o.cmdIdx = g.idx)
 C18_AliasAgrees(o) == (o.done /\ o.kind = "alias") => ((o.ai = "none" \/ (o.ai = o.git /\ o.argsSame)) /\ o.passedOK)
+\* alias values: git-ai bails out (o.aiOk = FALSE: the typed command is passed on and git deals with it), or it
+\* splits the value exactly as git does (o.gitOk, o.gitToks: what the real git made of it)
+C18_AliasTokens(o) == (o.done /\ o.kind = "tok") => (~o.aiOk \/ (o.gitOk /\ o.aiToks = o.gitToks))
+\* narrower clauses for known findings
+\* F13: the only difference is the empty argument git appends when the value ends in blanks
+DropLastEmpty(t) == IF t # <<>> /\ t[Len(t)] = <<>> THEN SubSeq(t, 1, Len(t) - 1) ELSE t
+C18_AliasTokensModuloTrailingEmpty(o) ==
+  (o.done /\ o.kind = "tok") => (~o.aiOk \/ (o.gitOk /\ o.aiToks = DropLastEmpty(o.gitToks)))
+\* F14: git refuses a value that ends with a backslash; git-ai keeps the backslash as a literal character
+C18_AliasTokensModuloTrailingBackslash(o) ==
+  o.done /\ o.kind = "tok" /\ ~o.gitOk /\ o.val # <<>> /\ o.val[Len(o.val)] = "k" /\ GitSplit(SubSeq(o.val, 1, Len(o.val) - 1)).ok
 \* narrower clauses delimiting known findings
 \* F11: the wrapper's own command-line parser swallows a LEADING "--" (everything else arrives as reconstructed)
 C18_OnlyLeadingEooLost(o) == o.done /\ o.kind = "vec" /\ o.v # <<>> /\ o.v[1] = "eoo" /\ InProcOK(o) /\ o.e2eDropLead
@@ -133,25 +185,35 @@ MetaSimple(v) ==
      ELSE IF v[g.idx] = "help" THEN \A i \in (g.idx + 1)..Len(v) : v[i] = "w"
      ELSE g.idx = Len(v)
 C18_SameArgsSimple(o) == (o.done /\ o.kind = "vec") => (o.e2eSame /\ (MetaSimple(o.v) => InProcOK(o)) /\ (~HasMeta(o.v) => o.same))
-PropertyNames == {"C18_SameArgs", "C18_CommandNotValue", "C18_AliasAgrees", "C18_OnlyLeadingEooLost", "C18_SameArgsSimple"}
+PropertyNames == {"C18_SameArgs", "C18_CommandNotValue", "C18_AliasAgrees", "C18_OnlyLeadingEooLost", "C18_SameArgsSimple",
+                  "C18_AliasTokens", "C18_AliasTokensModuloTrailingEmpty", "C18_AliasTokensModuloTrailingBackslash"}
 Holds(p, o) == CASE p = "C18_SameArgs" -> C18_SameArgs(o)
                  [] p = "C18_CommandNotValue" -> C18_CommandNotValue(o) [] p = "C18_AliasAgrees" -> C18_AliasAgrees(o)
-                 [] p = "C18_OnlyLeadingEooLost" -> C18_OnlyLeadingEooLost(o) [] OTHER -> C18_SameArgsSimple(o)
+                 [] p = "C18_OnlyLeadingEooLost" -> C18_OnlyLeadingEooLost(o) [] p = "C18_AliasTokens" -> C18_AliasTokens(o)
+                 [] p = "C18_AliasTokensModuloTrailingEmpty" -> C18_AliasTokensModuloTrailingEmpty(o)
+                 [] p = "C18_AliasTokensModuloTrailingBackslash" -> C18_AliasTokensModuloTrailingBackslash(o) [] OTHER -> C18_SameArgsSimple(o)
 
 NoOut == [done |-> FALSE]
-NoCase == [v |-> <<>>, alias |-> "-"]
+NoCase == [v |-> <<>>, alias |-> "-", val |-> <<>>]
 ModelVec(v) == [done |-> TRUE, kind |-> "vec", v |-> v, same |-> AiSame(v), cmdIdx |-> AiCmd(v), gitSame |-> TRUE,
-                e2eSame |-> TRUE, e2eDropLead |-> FALSE, ai |-> "-", git |-> "-", argsSame |-> TRUE, passedOK |-> TRUE]
+                e2eSame |-> TRUE, e2eDropLead |-> FALSE, ai |-> "-", git |-> "-", argsSame |-> TRUE, passedOK |-> TRUE,
+                aiOk |-> FALSE, aiToks |-> <<>>, gitOk |-> FALSE, gitToks |-> <<>>, val |-> <<>>]
+ModelTok(v) == [ModelVec(<<>>) EXCEPT !.kind = "tok", !.val = v, !.aiOk = AiSplit(v).ok, !.aiToks = AiSplit(v).toks,
+                                      !.gitOk = GitSplit(v).ok, !.gitToks = GitSplit(v).toks]
 ModelAlias(k) == [done |-> TRUE, kind |-> "alias", v |-> <<>>, same |-> TRUE, cmdIdx |-> 0, gitSame |-> TRUE,
                   e2eSame |-> TRUE, e2eDropLead |-> FALSE, ai |-> IF GitAlias(k) \in {"loop", "shell", "unknown"} THEN "none" ELSE GitAlias(k),
-                  git |-> GitAlias(k), argsSame |-> TRUE, passedOK |-> TRUE]
+                  git |-> GitAlias(k), argsSame |-> TRUE, passedOK |-> TRUE,
+                  aiOk |-> FALSE, aiToks |-> <<>>, gitOk |-> FALSE, gitToks |-> <<>>, val |-> <<>>]
 
 Init == case = NoCase /\ out = NoOut /\ l = 1 /\ viol = {} /\ drift = {} /\ taint = {} /\ hist = <<>>
-GenVec(v) == /\ hist = <<>> /\ case' = [v |-> v, alias |-> "-"] /\ out' = ModelVec(v)
+GenVec(v) == /\ hist = <<>> /\ case' = [v |-> v, alias |-> "-", val |-> <<>>] /\ out' = ModelVec(v)
              /\ hist' = <<[a |-> "Vec", v |-> v]>> /\ UNCHANGED <<l, viol, drift, taint>>
-GenAlias(k) == /\ hist = <<>> /\ case' = [v |-> <<>>, alias |-> k] /\ out' = ModelAlias(k)
+GenAlias(k) == /\ hist = <<>> /\ case' = [v |-> <<>>, alias |-> k, val |-> <<>>] /\ out' = ModelAlias(k)
                /\ hist' = <<[a |-> "Alias", k |-> k]>> /\ UNCHANGED <<l, viol, drift, taint>>
-Next == Gen /\ ((\E v \in SeqsUpTo(Classes, MaxLen) : GenVec(v)) \/ (\E k \in AliasKinds : GenAlias(k)))
+GenTok(v) == /\ hist = <<>> /\ case' = [v |-> <<>>, alias |-> "-", val |-> v] /\ out' = ModelTok(v)
+             /\ hist' = <<[a |-> "Tok", val |-> v]>> /\ UNCHANGED <<l, viol, drift, taint>>
+Next == Gen /\ ((\E v \in SeqsUpTo(Classes, MaxLen) : GenVec(v)) \/ (\E k \in AliasKinds : GenAlias(k))
+                \/ (\E v \in AliasValues : GenTok(v)))
 Spec == Init /\ [][Next]_vars
 Emit == out.done => PrintT(<<"REPLAY", ToJson(hist)>>)
 \* design-level checks on the model: the scanner never takes an option value for the subcommand
@@ -169,22 +231,34 @@ TrVec ==
   /\ LET v == SeqOf(Ev.v)
          o == [done |-> TRUE, kind |-> "vec", v |-> v, same |-> Ev.obs.same, cmdIdx |-> Ev.obs.cmdIdx,
                gitSame |-> Ev.obs.gitSame, e2eSame |-> Ev.obs.e2eSame, e2eDropLead |-> Ev.obs.e2eDropLead, ai |-> "-", git |-> "-", argsSame |-> TRUE,
-               passedOK |-> TRUE]
+               passedOK |-> TRUE, aiOk |-> FALSE, aiToks |-> <<>>, gitOk |-> FALSE, gitToks |-> <<>>, val |-> <<>>]
          m == ModelVec(v)
-     IN /\ case' = [v |-> v, alias |-> "-"] /\ out' = o /\ taint' = taint
+     IN /\ case' = [v |-> v, alias |-> "-", val |-> <<>>] /\ out' = o /\ taint' = taint
         /\ drift' = drift \cup (IF <<o.same, o.cmdIdx>> # <<m.same, m.cmdIdx>> THEN {<<l, "scan">>} ELSE {})
   /\ viol' = viol \cup { <<l, p>> : p \in { q \in PropertyNames : ~Holds(q, out') } }
   /\ hist' = hist /\ l' = l + 1
 TrAlias ==
   /\ IsEv("Alias")
   /\ LET o == [done |-> TRUE, kind |-> "alias", v |-> <<>>, same |-> TRUE, cmdIdx |-> 0, gitSame |-> TRUE, e2eSame |-> TRUE,
-               e2eDropLead |-> FALSE, ai |-> Ev.obs.ai, git |-> Ev.obs.git, argsSame |-> Ev.obs.argsSame, passedOK |-> Ev.obs.passedOK]
+               e2eDropLead |-> FALSE, ai |-> Ev.obs.ai, git |-> Ev.obs.git, argsSame |-> Ev.obs.argsSame, passedOK |-> Ev.obs.passedOK,
+               aiOk |-> FALSE, aiToks |-> <<>>, gitOk |-> FALSE, gitToks |-> <<>>, val |-> <<>>]
          m == ModelAlias(Ev.k)
-     IN /\ case' = [v |-> <<>>, alias |-> Ev.k] /\ out' = o /\ taint' = taint
+     IN /\ case' = [v |-> <<>>, alias |-> Ev.k, val |-> <<>>] /\ out' = o /\ taint' = taint
         /\ drift' = drift \cup (IF <<o.ai, o.git>> # <<m.ai, m.git>> THEN {<<l, "alias">>} ELSE {})
   /\ viol' = viol \cup { <<l, p>> : p \in { q \in PropertyNames : ~Holds(q, out') } }
   /\ hist' = hist /\ l' = l + 1
-TraceNext == ~Gen /\ (TrReset \/ TrVec \/ TrAlias)
+Toks(x) == [i \in 1..Len(x) |-> SeqOf(x[i])]
+TrTok ==
+  /\ IsEv("Tok")
+  /\ LET v == SeqOf(Ev.val)
+         m == ModelTok(v)
+         o == [m EXCEPT !.aiOk = Ev.obs.aiOk, !.aiToks = Toks(Ev.obs.aiToks), !.gitOk = Ev.obs.gitOk, !.gitToks = Toks(Ev.obs.gitToks)]
+     IN /\ case' = [v |-> <<>>, alias |-> "-", val |-> v] /\ out' = o /\ taint' = taint
+        /\ drift' = drift \cup (IF <<o.gitOk, o.gitToks>> # <<m.gitOk, m.gitToks>> THEN {<<l, "git-split-model">>} ELSE {})
+                          \cup (IF <<o.aiOk, o.aiToks>> # <<m.aiOk, m.aiToks>> THEN {<<l, "ai-split-model">>} ELSE {})
+  /\ viol' = viol \cup { <<l, p>> : p \in { q \in PropertyNames : ~Holds(q, out') } }
+  /\ hist' = hist /\ l' = l + 1
+TraceNext == ~Gen /\ (TrReset \/ TrVec \/ TrAlias \/ TrTok)
 TraceSpec == Init /\ [][TraceNext]_vars
 TraceAccepted ==
   LET d == TLCGet("stats").diameter
